@@ -1,11 +1,12 @@
 package eng
 
 import (
-	"bytes"
+	"math"
 	"sort"
 
 	"github.com/feichai0017/NoKV/kv"
 	"github.com/feichai0017/NoKV/lsm"
+	"github.com/feichai0017/NoKV/utils"
 )
 
 // Tracker mirrors, from the outside, which SST holds a copy of which (cf,key)
@@ -37,8 +38,13 @@ func NewTracker() *Tracker {
 	return &Tracker{mem: map[string]bool{}, tabs: map[uint64]*ttab{}}
 }
 
-// BaseKey is the (cf,user key) identity used by the tracker.
-func BaseKey(cf byte, key []byte) string { return string(kv.EncodeKeyWithCF(kv.ColumnFamily(cf), key)) }
+// BaseKey is the identity of a plain-API key (sentinel version) used by the tracker.
+func BaseKey(cf byte, key []byte) string { return IKey(cf, key, math.MaxUint64) }
+
+// IKey is the tracker identity of one internal key (cf, user key, version).
+func IKey(cf byte, key []byte, ver uint64) string {
+	return string(kv.InternalKey(kv.ColumnFamily(cf), key, ver))
+}
 
 // Wrote records a write of base key k into the active memtable.
 func (t *Tracker) Wrote(k string) { t.mem[k] = true }
@@ -114,7 +120,7 @@ func (t *Tracker) Sync(layout []lsm.VerifTableInfo, flushed bool) {
 		for k := range present {
 			placed := false
 			for i, ti := range added {
-				if bytes.Compare([]byte(k), kv.ParseKey(ti.Min)) >= 0 && bytes.Compare([]byte(k), kv.ParseKey(ti.Max)) <= 0 {
+				if utils.CompareKeys([]byte(k), ti.Min) >= 0 && utils.CompareKeys([]byte(k), ti.Max) <= 0 {
 					outs[i].keys[k] = present[k]
 					if union[k] >= 2 || poisoned[k] {
 						outs[i].poisoned[k] = true
